@@ -211,6 +211,7 @@ class PassFormula:
         def note_exit(node: Node, cond: t.Any) -> None:
             for lp in node.loop_of:
                 loop_exits.setdefault(id(lp), []).append(cond)
+        self._flag_ctx = (cfg, reach, fails, func)
         for n in order:
             if n is cfg.entry:
                 r = TRUE
@@ -485,6 +486,41 @@ class PassFormula:
             return defs[0].node, v, positive
         return None
 
+    def _flag_formula(self, test: ast.AST, node: Node, nz: Normalizer, bound: t.Dict[str, str], func: FuncInfo,
+                      reject_desc: t.Set[str]) -> t.Optional[t.Any]:
+        """``ok = bool(cond(x))`` in a ``try``, ``ok = False`` in its handler, ``if not ok: raise`` afterwards: the flag is true iff one
+        of its assignments completed (its statement was reached and did not raise) with a true value."""
+        ctx = getattr(self, '_flag_ctx', None)
+        if ctx is None or not isinstance(test, ast.Name) or test.id in bound:
+            return None
+        cfg, reach, fails, cfunc = ctx
+        if cfunc is not func:
+            return None
+        rd = cfg.reaching()
+        if not rd.is_local(test.id):
+            return None
+        defs = rd.at(node, test.id)
+        if len(defs) < 2 or not all(d.kind == 'assign' and d.value is not None and not d.path for d in defs):
+            return None
+        parts = []
+        for d in defs:
+            if d.node.id not in reach:
+                return None
+            v = d.value
+            while isinstance(v, ast.Call) and isinstance(v.func, ast.Name) and v.func.id == 'bool' and len(v.args) == 1 and not v.keywords:
+                v = v.args[0]
+            if isinstance(v, ast.Constant):
+                vf = TRUE if v.value else FALSE
+            else:
+                vf = self._test_formula(v, d.node, nz, {}, func, reject_desc)
+                if vf is None:
+                    return None
+            done = reach[d.node.id]
+            if any(lb == 'exc' for (lb, _m) in d.node.succ):
+                done = f_and(done, f_not(self._exc_cond(d.node, func, nz, cfg, fails.get(d.node.id, FALSE))))
+            parts.append(f_and(done, vf))
+        return f_or(*parts)
+
     def _test_formula(self, test: ast.AST, node: Node, nz: Normalizer, bound: t.Dict[str, str], func: FuncInfo,
                       reject_desc: t.Set[str], helper_here: t.Any = FALSE) -> t.Optional[t.Any]:
         """Formula of a branch condition; None when the condition carries no verdict information (unknown)."""
@@ -529,6 +565,9 @@ class PassFormula:
             if ok and parts2:
                 f = f_and(*parts2)
                 return f if positive else f_not(f)
+        flag = self._flag_formula(test, node, nz, bound, func, reject_desc)
+        if flag is not None:
+            return flag
         text, pos = nz.literal(test, node, bound)
         # tests on the result of a delegation
         m = re.match(r'^None is (.*)\.collect_errors\((.*)\)$', text) or re.match(r'^(.*)\.collect_errors\((.*)\) is None$', text)
